@@ -13,7 +13,7 @@ import (
 // walk; a wrong shadow merely produces more `not-enabled` answers (both sides answer those too).
 type simReq struct {
 	prio, ts, ttl, dl int64
-	ph                string // pass full gap parked woke
+	ph                string // pass full gap gapdone parked woke
 }
 
 type sim struct {
@@ -33,7 +33,7 @@ func (s *sim) update() {
 func (s *sim) waiting() int64 {
 	n := int64(0)
 	for _, r := range s.reqs {
-		if r.ph == "gap" || r.ph == "parked" {
+		if r.ph == "gap" || r.ph == "gapdone" || r.ph == "parked" {
 			n++
 		}
 	}
@@ -49,6 +49,7 @@ func (s *sim) less(a, b int) bool {
 
 func (s *sim) enq(p, ttl int64) {
 	s.update()
+	s.serve()
 	r := simReq{prio: p, ts: s.now, ttl: ttl}
 	switch {
 	case s.counter < s.quota:
@@ -63,8 +64,8 @@ func (s *sim) enq(p, ttl int64) {
 	s.reqs = append(s.reqs, r)
 }
 
-func (s *sim) roll() {
-	s.update()
+// serve = processQueueItems after the repairs: hand-off whether or not the waiter has parked.
+func (s *sim) serve() {
 	for len(s.heap) > 0 && s.counter < s.quota {
 		m := 0
 		for i := range s.heap {
@@ -74,11 +75,20 @@ func (s *sim) roll() {
 		}
 		id := s.heap[m]
 		s.heap = append(s.heap[:m:m], s.heap[m+1:]...)
-		if s.reqs[id].ph == "parked" {
+		switch s.reqs[id].ph {
+		case "parked":
 			s.reqs[id].ph = "woke"
+			s.counter++
+		case "gap":
+			s.reqs[id].ph = "gapdone"
 			s.counter++
 		}
 	}
+}
+
+func (s *sim) roll() {
+	s.update()
+	s.serve()
 	s.rollDue = (s.widx + 1) * s.win
 }
 
@@ -106,6 +116,10 @@ func (w *walk) ids(ph string) []int {
 		}
 	}
 	return out
+}
+
+func (w *walk) unparked() []int {
+	return append(w.ids("gap"), w.ids("gapdone")...)
 }
 
 func (w *walk) dueParked() []int {
@@ -148,7 +162,9 @@ func (w *walk) doEnq(maxPrio int) {
 func (w *walk) doPark(id int) {
 	s := w.s
 	w.add("park r=%d", id)
-	if id < len(s.reqs) && s.reqs[id].ph == "gap" {
+	if id < len(s.reqs) && s.reqs[id].ph == "gapdone" {
+		s.reqs[id].ph = "woke"
+	} else if id < len(s.reqs) && s.reqs[id].ph == "gap" {
 		if s.reqs[id].ttl == 0 {
 			s.reqs[id].ph = "woke"
 		} else {
@@ -226,7 +242,7 @@ func genWalk(r *prng.R, style, maxReqs, maxOps int) []string {
 	w.add("cfg quota=%d win=%d size=%d t0=%d", s.quota, s.win, s.size, t0)
 	maxPrio := r.Range(1, 3)
 	for len(w.ops) < maxOps {
-		gaps, due := w.ids("gap"), w.dueParked()
+		gaps, due := w.unparked(), w.dueParked()
 		rollDue := s.rollDue <= s.now
 		// natural style: settle everything that is enabled before anything else happens
 		if style == 0 {
@@ -343,7 +359,7 @@ func enumerate(tag string, quota int64, depth, maxReqs int, emit func(proto.Case
 		}
 		for i, r := range s.reqs {
 			i := i
-			if r.ph == "gap" {
+			if r.ph == "gap" || r.ph == "gapdone" {
 				try(func(w *walk) { w.doPark(i) })
 			}
 			if r.ph == "parked" && r.dl <= s.now {
@@ -360,6 +376,41 @@ func enumerate(tag string, quota int64, depth, maxReqs int, emit func(proto.Case
 	return n
 }
 
+// genPluginBurst: plugin-level case, k concurrent FIRST requests per fresh remedy key, many rounds.
+func genPluginBurst(r *prng.R, rounds int) []string {
+	quota, size := r.Range(1, 4), r.Range(1, 6)
+	ops := []string{fmt.Sprintf("pcfg quota=%d winsec=%d size=%d ttlsec=%d t0=%d", quota, prng.Pick(r, []int{1, 2, 5}),
+		size, r.Range(1, 5), int64(r.Range(1, 100000))*1_000_000_000+500_000_000)}
+	for n := r.Range(1, 3); n > 0; n-- {
+		k := prng.Pick(r, []int{2, 3, 4, 8, 12, 16, quota, quota + 1, quota + size, quota + size + 1})
+		ops = append(ops, fmt.Sprintf("pburst k=%d rounds=%d", k, rounds))
+	}
+	return ops
+}
+
+// genPluginSeq: plugin-level sequential scenario over 1-3 remedy keys; requests are 1 ms apart and
+// start at x.5 s, the other clock steps are whole seconds, so that a TTL deadline never coincides
+// with a window end and timestamps are distinct.
+func genPluginSeq(r *prng.R, maxReqs int) []string {
+	quota, size, ttl := r.Range(1, 3), r.Range(1, 4), r.Range(1, 4)
+	ops := []string{fmt.Sprintf("pcfg quota=%d winsec=%d size=%d ttlsec=%d t0=%d", quota, prng.Pick(r, []int{1, 1, 2, 3}),
+		size, ttl, int64(r.Range(1, 100000))*1_000_000_000+500_000_000)}
+	keys, prios := r.Range(1, 3), r.Range(1, 4)
+	id := 0
+	for id < maxReqs {
+		for b := r.Range(1, 5); b > 0 && id < maxReqs; b-- {
+			ops = append(ops, "ptick d=1000000")
+			ops = append(ops, fmt.Sprintf("preq id=%d key=%d p=%d", id, r.Intn(keys), r.Intn(prios)))
+			id++
+		}
+		for t := r.Range(1, 3); t > 0; t-- {
+			ops = append(ops, fmt.Sprintf("ptick d=%d", int64(r.Range(1, 3))*1_000_000_000))
+		}
+	}
+	ops = append(ops, fmt.Sprintf("ptick d=%d", int64(ttl+3)*1_000_000_000))
+	return ops
+}
+
 func gen(r *prng.R, f proto.Flags, emit func(proto.Case)) {
 	n, maxReqs, maxOps := 3000, 9, 50
 	if f.Tier == "thorough" {
@@ -368,6 +419,21 @@ func gen(r *prng.R, f proto.Flags, emit func(proto.Case)) {
 	n *= f.Budget
 	for i, ops := range malformed {
 		emit(proto.Case{ID: fmt.Sprintf("m%d", i), Ops: ops})
+	}
+	nb, rounds, ns := 30, 60, 300
+	if f.Tier == "thorough" {
+		nb, rounds, ns = 200, 200, 5000
+	}
+	emit(proto.Case{ID: "pm0", Ops: []string{"pcfg quota=1 winsec=0 size=1 ttlsec=1 t0=5", "preq id=0 key=0 p=0"}})
+	emit(proto.Case{ID: "pm1", Ops: []string{"pcfg quota=1 winsec=1 size=1 ttlsec=1 t0=1500000000", "preq id=0 key=0 p=0",
+		"pburst k=2 rounds=2", "preq id=0 key=0 p=0", "preq id=1 key=0 p=9", "preq id=2 key=0", "ptick", "cfg quota=1 win=5 size=1 t0=7", "roll",
+		"ptick d=1000000", "preq id=3 key=0 p=1"}})
+	for k := 0; k < nb*f.Budget; k++ {
+		emit(proto.Case{ID: fmt.Sprintf("pb%d", k), Ops: genPluginBurst(r.Fork(), rounds)})
+	}
+	for k := 0; k < ns*f.Budget; k++ {
+		rr := r.Fork()
+		emit(proto.Case{ID: fmt.Sprintf("ps%d", k), Ops: genPluginSeq(rr, rr.Range(2, 14))})
 	}
 	if f.Tier == "thorough" {
 		enumerate("x", 1, 9, 3, emit)
